@@ -607,7 +607,7 @@ def uses(h: Hier, case, exp):
     return out
 
 
-def known_tags(h: Hier, case, exp):
+def known_tags(h: Hier, case, exp, envs=None):
     """Tags of the (so far) known defect classes a case falls into -- part of the violation signature, so that
     known-finding matchers stay narrow."""
     tags = set()
@@ -628,6 +628,16 @@ def known_tags(h: Hier, case, exp):
         for n in walk(t):
             if n[0] == "gen" and h.params(n[1]) == [TVT] and n[2] == [["unspec_seq"]]:
                 tags.add("bare_only_tvt")        # X[*tuple[Any, ...]]: the same call as the bare class
+    if envs and any(e.get(TVT) == [["unspec_seq"]] for e in envs.values()):
+        # the TypeVarTuple is bound to the implicit *tuple[Any, ...] somewhere: every type expression X[*Ts] with
+        # X generic in the TypeVarTuple only then denotes X[*tuple[Any, ...]], i.e. the bare variadic-only generic
+        for i in relevant:
+            exprs = [f["ann"] for f in h.classes[i]["fields"]]
+            exprs += [a for b in h.classes[i]["bases"] for a in (b["args"] or [])]
+            for t in exprs:
+                for n in walk(t):
+                    if n[0] == "gen" and n[2] == [["unpack", TVT]] and h.params(n[1]) == [TVT]:
+                        tags.add("bare_only_tvt")
     for j, n in used:
         params = h.params(j)
         if not params:
@@ -751,7 +761,7 @@ def _check_built(ctx, case, built):  # noqa: C901, PLR0912, PLR0915
     exp, defs, _envs = h.expected_fields(qi, q["args"] if params else [])
     for t in exp.values():      # nested model types must be computable as well (may raise Skip)
         h.unspecified(t)
-    tags = known_tags(h, case, exp)
+    tags = known_tags(h, case, exp, _envs)
     tagstr = "+".join(tags) or "-"
     cls = built["cls"][qi]
     labels_extra = []
@@ -1114,8 +1124,14 @@ def st_open(draw, case_ctx, own_params, depth, upto, closed, allow_known):
         if case_ctx["params"][j] and chance(draw, 1, 5) and _bare_ref_allowed(case_ctx, j, allow_known):
             return ["genbare", j]
         sub_closed = closed or case_ctx["kind"] == "pydantic"
-        return ["gen", j, draw(st_args_for(case_ctx, j, own_params, sub_closed, allow_known))] \
-            if case_ctx["params"][j] else ["genbare", j]
+        if not case_ctx["params"][j]:
+            return ["genbare", j]
+        args = draw(st_args_for(case_ctx, j, own_params, sub_closed, allow_known))
+        if not allow_known and case_ctx["params"][j] == [TVT] and args == [["unpack", TVT]]:
+            # X[*Ts] as a *type* becomes X[*tuple[Any, ...]] when the enclosing class is used bare: the known
+            # crash of the bare variadic-only generic -> keep the argument list non-degenerate
+            args = [*args, draw(st_closed(0))]
+        return ["gen", j, args]
     return draw(st_closed(min(depth, 1)))
 
 
@@ -1355,7 +1371,7 @@ def explore(ctx: runner.Ctx):
     if ctx.shard == 0:
         for case in fixed_cases():
             check_case(ctx, case)
-    ctx.given(st_case(), lambda case: check_case(ctx, case), ctx.budget(6000, 160000))
+    ctx.given(st_case(), lambda case: check_case(ctx, case), ctx.budget(6000, 100000))
 
 
 RULE = ("cases = generated (hierarchy of <= 5 generic classes of one model kind, query parametrisation or bare, "
